@@ -564,7 +564,15 @@ func (ex *Exec) assignStmt(st *State, s *ast.AssignStmt) {
 			vals = ex.typeAssert(st, r, true)
 		case *ast.IndexExpr: // v, ok := m[k]
 			v := ex.expr(st, r)
-			vals = []*Val{v, {T: tBool, Term: ex.fresh("mapok", SBool)}}
+			okT := ex.fresh("mapok", SBool)
+			if mt, isMap := ex.typeOf(r.X).Underlying().(*types.Map); isMap {
+				mv := ex.expr(st, r.X)
+				kv := ex.coerce(st, ex.expr(st, r.Index), mt.Key())
+				if mv.Term != nil && kv.Term != nil {
+					okT = ex.mapHas(st, mt, mv.Term, kv.Term)
+				}
+			}
+			vals = []*Val{v, {T: tBool, Term: okT}}
 		default:
 			ex.unsupported(s.Pos(), "multi-value assignment")
 			return
@@ -729,8 +737,15 @@ func (ex *Exec) assign1(st *State, lhs ast.Expr, v *Val, define bool) {
 			nv := ex.coerce(st, v, u.Elem())
 			ex.assign(st, l.X, &Val{T: x.T, Term: store(x.Term, i.Term, nv.Term)}, false)
 		case *types.Map:
-			// map stores are not tracked
 			ex.nilCheck(st, x, l.Pos(), "map store")
+			k := ex.coerce(st, i, u.Key())
+			nv := ex.coerce(st, v, u.Elem())
+			if nv.Term == nil {
+				nv = &Val{T: u.Elem(), Term: ex.funcRef(st, nv)}
+			}
+			if k.Term != nil && nv.Term != nil {
+				ex.mapStore(st, u, x.Term, k.Term, nv.Term)
+			}
 		default:
 			ex.unsupported(l.Pos(), "index assignment")
 		}
